@@ -10,7 +10,7 @@ CONSTANTS
   EnableFault = FALSE
   EnableReader = TRUE
   PayKind = "two"
-INVARIANTS Consistent AlwaysReadable ReaderSnapshot ReaderNoError
+INVARIANTS Consistent AlwaysReadable ReaderSnapshot ReaderNoErrorKF
 PROPERTIES AppendOnly ReturnAgrees
 CHECK_DEADLOCK FALSE
 VIEW View
